@@ -10,7 +10,39 @@ from stackscope.lowlevel import set_trickery_enabled
 from vlib.wk import chains, g1
 
 
+def _ambient():
+    """interpreter-wide settings an observer has no business changing"""
+    import threading
+    return {"gc.isenabled": gc.isenabled(), "gc.threshold": gc.get_threshold(), "gc.debug": gc.get_debug(),
+            "switchinterval": sys.getswitchinterval(), "trace": sys.gettrace(), "profile": sys.getprofile(),
+            "recursionlimit": sys.getrecursionlimit(), "warnings.filters": len(warnings.filters),
+            "threads": threading.active_count(), "tracebacklimit": getattr(sys, "tracebacklimit", None),
+            "excepthook": sys.excepthook, "asyncgen_hooks": tuple(sys.get_asyncgen_hooks())}
+
+
 def run_twin(req):
+    gc_was = gc.isenabled()
+    if req.get("gc_off"):
+        gc.disable()      # a configuration some applications run in (manual collection)
+    try:
+        before = _ambient()
+        res = _run_twin(req)
+        after = _ambient()
+    finally:
+        if gc_was:
+            gc.enable()
+        else:
+            gc.disable()
+    diff = sorted(k for k in before if before[k] != after[k])
+    if diff and "obs" in res:
+        res["obs"].insert(0, {"kind": "pure.interpreter_wide_state_changed", "which": diff,
+                              "before": repr([before[k] for k in diff])[:200], "after": repr([after[k] for k in diff])[:200]})
+    if "stats" in res:
+        res["stats"]["gc_off"] = 1 if req.get("gc_off") else 0
+    return res
+
+
+def _run_twin(req):
     prog = req["prog"]
     points = req["points"]
     trick = req.get("trickery", True)
